@@ -833,6 +833,11 @@ func (r *Run) builtin(st *State, fr *Frame, b *ssa.Builtin, cc *ssa.CallCommon, 
 				ml := e.mapLayout(cc.Args[0].Type())
 				r.mapAccessCheck(st, fr, x, false, in)
 				l := Ite(Eq(x, NilOf(SRef)), IntLit(0), e.mapLen(st, ml, x))
+				// the length of a map is never negative, and an empty map has no keys (the converse needs counting and is not assumed)
+				k := T{"k!q", ml.ksort}
+				ml0 := e.mapLen(st, ml, x)
+				st.assume(App(SBool, ">=", ml0, IntLit(0)))
+				st.assume(Implies(Eq(ml0, IntLit(0)), Forall([]T{k}, nil, Not(e.mapHas(st, ml, x, k)))))
 				r.setResult(st, fr, dst, []Val{r.fromInt(l, types.Typ[types.Int])})
 			} else if x.So == SChan {
 				v := e.freshConst("chanlen", SInt)
